@@ -275,6 +275,19 @@ def run(ctx):
               (lambda tb, ts, fmt: lambda i: fmt % (CN[(G.BRANCHES.index(tb) - i % 12) % 12], CN[(G.STEMS.index(ts) - i % 10) % 10]))(tb, ts, fmt),
               'kitchen-god pair attribute in 1..12', G.sixty)
 
+    # constructor wiring: the steed of lunar year y is seeded with the pillar of that year's NEW-YEAR DAY (month 1 day 1), through both public routes
+    def kg_wire(y):
+        a = I.call('KitchenGodSteed::from_lunar_year', [y])
+        b = t.m(I.call('LunarYear::from_year', [y]), 'get_kitchen_god_steed')
+        return (t.idx(a.f['first_day_sixty_cycle']), t.idx(b.f['first_day_sixty_cycle']), I.method(a, 'get_dragon') == I.method(b, 'get_dragon'))
+
+    def kg_wire_orc(y):
+        first = [mm for mm in cmh.months if mm['year'] == y and mm['month'] == 1][0]
+        di = (int(first['first']) + 49) % 60
+        return (di, di, True)
+    table(ctx, 'WIRING', 'WIRING:kitchen-god-seed', [2000, 2001], kg_wire, kg_wire_orc,
+          'KitchenGodSteed::from_lunar_year / LunarYear::get_kitchen_god_steed seed the attribute with the pillar of lunar new-year day', str, fn_site(p, 'KitchenGodSteed::new'))
+
     ctx.not_decided.append('that the day / hour views compute the key (month pillar, day pillar, hour pillar) they should from real dates: that is C07/C08/C09')
     ctx.assumptions.append('python `re` and the regex crate agree on the reader pattern `;XX(.[^;]*)` over the ASCII table data')
     return ('readers of the three packed almanac tables evaluated from the syntax tree over the whole finite key space (12x60 each, 2160 keys, '
